@@ -84,6 +84,16 @@ def run(tier):
     for cfgname in ("MC_Multipart2.cfg", "MC_Multipart1.cfg", "MC_MultipartBad.cfg"):
         r = common.tlc("MC_Multipart", cfgname, workers=4, timeout=600)
         ck.require_ok("MultipartImpl/" + cfgname, r); ck.add_tlc("MultipartImpl/" + cfgname + " (FinalState for every partition, ValidImpliesGood)", r)
+    # one handle and one target context over several requests (DlSession): with zck_dl_reset clearing the whole handle every
+    # session completes, stays inside the requested extents and wipes nothing valid; keeping any ONE of write_in_chunk,
+    # tgt_check, dl_chunk_data, boundary across the reset breaks that (the counterexamples the sub-agents' "per-field reset" changes hit)
+    r = common.tlc("DlSession", "MC_DlSession_none.cfg" if tier == "quick" else "MC_DlSession_none_big.cfg", workers=4, timeout=900)
+    ck.require_ok("DlSession/none", r); ck.add_tlc("DlSession (Keep = {}: ValidImpliesGood, Confinement, NoValidChunkWiped, Completes)", r, "3 chunks x 2 cells, 3 requests (thorough: 4 x 2, 4 requests), any initial target, responses good / one damaged cell / cut anywhere, scan or copy in between, every fragmentation")
+    for k in ("wic", "tgt", "dlData", "boundary"):
+        r = common.tlc("DlSession", "MC_DlSession_%s.cfg" % k, workers=4, timeout=600)
+        if r.ok:
+            raise Broken("DlSession with Keep = {%s}: the documented counterexample was not found" % k)
+        ck.add_tlc("DlSession (Keep = {%s}: counterexample exhibited, as documented)" % k, r)
     fams = scenario_families(rnd, tier)
     scs = []; groups = []
     for fi, (B, missing, opts, tag) in enumerate(fams):
